@@ -9,4 +9,4 @@ Extraction "verilog_model.ml" get_wires write_brackets read_brackets write_decl 
   group write_concat read_concat read_piece sort_desc align
   update_cable update_port new_bundle item_at
   is_pinset_concatenated write_plain_port emit_port read_port reader_expr expr_bits read_assign write_assign elect
-  elab emit rt_check.
+  elab emit rt_check writable.
